@@ -77,6 +77,10 @@ Definition sel_in (a : astate) (t : bytes) : list (N * bytes * N) :=
 Definition spec_retained (a : astate) (f : bytes) : list (bytes * bytes) :=
   filter (fun e => topic_matches f (fst e)) (a_ret a).
 
+(* filters for which C02 speaks: non-empty, wildcards only as whole levels, '#' only last ([MQTT-4.7.1-2],
+   [MQTT-4.7.1-3], [MQTT-4.7.3-1]) *)
+Definition msg_filter_ok (f : bytes) : bool := negb (nilb f) && levels_ok (split f).
+
 (* which operations the theorems are about: shared filters have a filter part after $share/<group>/
    ([MQTT-4.8.2-1], enforced by IsValidFilter before the index is called); retained topics are topic names *)
 Definition wf_opb (o : op) : bool :=
